@@ -133,16 +133,22 @@ var c14Entries = map[string]func(c *WCase, res *WResult){
 			return
 		}
 		var wg sync.WaitGroup
+		start := make(chan struct{})
 		for g := 0; g < 8; g++ {
 			wg.Add(1)
-			go func() {
+			go func(g int) {
 				defer wg.Done()
 				defer func() { recover() }()
-				for k := 0; k < 300; k++ {
-					formatNodes(n)
+				<-start
+				for k := 0; k < 50; k++ {
+					// every goroutine walks the nodes from another starting point
+					for i := range n {
+						n[(i+g*len(n)/8)%len(n)].Format()
+					}
 				}
-			}()
+			}(g)
 		}
+		close(start)
 		wg.Wait()
 		res.Val = formatNodes(n)
 	},
@@ -425,6 +431,7 @@ func checkC14(r *mon.Run) {
 		p     map[string]string
 	}
 	var jobs []job
+	var concJobs []job // each in a child of its own: first use of any package-level state happens concurrently
 	addAll := func(entry string, hs []hostile, p map[string]string) {
 		for _, h := range hs {
 			jobs = append(jobs, job{entry, h, p})
@@ -574,7 +581,20 @@ func checkC14(r *mon.Run) {
 				conc = append(conc, h)
 			}
 		}
-		addAll("devicepath.Format-concurrent", conc, nil)
+		// one path holding hard-drive nodes of every unknown partition format, rendered for the
+		// first time by eight goroutines at once
+		var all []byte
+		for f := 3; f < 200; f++ {
+			all = append(all, refdev.Node{Kind: "hd", PartNum: 1, PartFormat: byte(f), SigType: byte(f)}.Encode()...)
+		}
+		all = append(all, 0x7f, 0xff, 4, 0)
+		conc = append([]hostile{{all, "hd-all-unknown-formats", "", "", "devicepath"}}, conc...)
+		if len(conc) > 12 {
+			conc = conc[:12]
+		}
+		for _, h := range conc {
+			concJobs = append(concJobs, job{"devicepath.Format-concurrent", h, nil})
+		}
 	}
 	var loBases [][]byte
 	ents, _ := os.ReadDir("/repo/tests/data/boot")
@@ -697,6 +717,12 @@ func checkC14(r *mon.Run) {
 		cases[i] = WCase{Entry: j.entry, In: j.h.in, P: j.p}
 	}
 	res := runBatches(r, cases, 400, 16)
+	cc := make([]WCase, len(concJobs))
+	for i, j := range concJobs {
+		cc[i] = WCase{Entry: j.entry, In: j.h.in, P: j.p}
+	}
+	res = append(res, runBatches(r, cc, 1, 12)...)
+	jobs = append(jobs, concJobs...)
 	perEntry := map[string]int{}
 	for i, j := range jobs {
 		judgeOutcome(r, "C14", j.entry, j.h, res[i])
